@@ -38,7 +38,7 @@ MIN_HITS = {
         'mon:mean': 1500, 'mon:zero': 100, 'mon:nan': 1500, 'mon:hull': 500, 'mon:order': 500, 'mon:generator': 900,
         'mon:donation': 5000, 'mon:readonly': 300, 'mon:structure': 1500, 'mon:sum': 500, 'mon:aggstate': 300,
         'mon:clipnorm': 300, 'mon:clipdir': 300, 'mon:clipident': 100, 'jax-leaves': 100, 'np-leaves': 50,
-        'single-client': 20, 'clip-below': 50, 'clip-zero-tree': 5, 'hook:tree_mean': 2, 'class:many-trees': 15, 'class:int32-weights-total-above-2^31': 8,
+        'single-client': 20, 'clip-below': 50, 'clip-zero-tree': 5, 'hook:tree_mean': 2, 'class:many-trees': 15, 'class:int32-weights-total-above-2^31': 8, 'class:int32-leaves-in-one-client': 15,
         'hook:tree_sum': 1, 'hook:tree_clip_by_global_norm': 1,
     },
     'thorough': {
@@ -379,14 +379,31 @@ def mean_case(ctx, mods, pool, rng):
     ctx.count('class:int32-weights-total-above-2^31')
   values = make_values(rng, template, n, mag)
   weights = make_weights(rng, n, wclass, wtype)
-  wit = {'structure': describe(template), 'n_clients': n, 'magnitude': mag, 'weight_class': wclass,
+  # mixed leaf dtypes across clients: one client (first, middle or last in the list) holds int32 leaves with integer values where
+  # the others hold float32 -- the sum / mean is still the real-number one, whatever the order
+  int_client = None
+  if n >= 2 and mag in ('unit', 'kilo') and rng.rand() < 0.15:
+    cand = int([0, n - 1, n // 2][rng.randint(3)])
+    iv = [np.round(v).astype(np.float32) for v in values[cand]]
+    # integer arithmetic must stay exact: weight * value and their sum have to fit int32 comfortably
+    if max([float(np.max(np.abs(v))) if v.size else 0.0 for v in iv] + [0.0]) * max(weights + [1.0]) * n < 5e8:
+      int_client = cand
+      values[int_client] = iv
+      ctx.count('class:int32-leaves-in-one-client')
+  wit = {'structure': describe(template), 'n_clients': n, 'magnitude': mag, 'weight_class': wclass, 'int32_client': int_client,
          'weight_type': wtype, 'leaf_kind': kind, 'weights': weights}
 
   def fresh(order=None):
     """Fresh caller-owned (tree, weight) pairs, optionally permuted."""
     idx = list(range(n)) if order is None else list(order)
     r = np.random.RandomState(rng.randint(2**31 - 1))
-    return [(materialise(jnp, r, template, values[i], kind), typed_weight(jnp, weights[i], wtype)) for i in idx], idx
+    def tree_of(i):
+      t = materialise(jnp, r, template, values[i], kind)
+      if i == int_client:
+        t = jax.tree_util.tree_map(lambda l: l.astype(np.int32) if isinstance(l, np.ndarray) else jnp.asarray(l, jnp.int32), t)
+      return t
+
+    return [(tree_of(i), typed_weight(jnp, weights[i], wtype)) for i in idx], idx
 
   def run_guarded(site, fn, inputs, witness):
     """Snapshot -> call -> sanitizer (alias on). Returns the output or None.
